@@ -255,7 +255,48 @@ for e in ENGINES:
         e["serves_properties"] = sorted(p for p in PLAN)
 
 
+INPUTS = [
+    ("allocb_", "symbolic: which slots are free and in which order, every generation, every location, a probe identifier (any index, any generation); concrete: slot count n, free count f, batch size k (name suffix)"),
+    ("alloc1_", "as allocb_, one allocate call with a symbolic row"),
+    ("allocf_", "as allocb_, plus a symbolic live target identifier"),
+    ("allocm_", "as allocb_, symbolic target, new row index and which update function"),
+    ("allocc_", "symbolic source (and destination) allocator contents; concrete slot and free counts; identifier map old->new of two archetypes"),
+    ("rm_", "symbolic cell values, row<->slot assignment, generations, target row, probe identifier; concrete registry, component subset, rows n"),
+    ("push_", "symbolic cell values, entity payload, slot assignment; concrete rows and capacity (exact = growth path)"),
+    ("ext_", "symbolic cell values and batch payloads; concrete rows, capacity, batch size k (0 = adoption of the caller's Vecs)"),
+    ("shape_", "symbolic cell values, slot assignment, target row, added component payload; concrete source/target component sets and row counts"),
+    ("set_", "symbolic cell values, target row and new value"),
+    ("clear_", "symbolic cell values and slot assignment; then one symbolic push"),
+    ("grow_", "symbolic cell values, symbolic order of reserve and shrink_to_fit, then one symbolic push"),
+    ("clone_", "symbolic cell values and identifiers of the source"),
+    ("clonefrom_", "symbolic cell values and identifiers of source and destination; concrete row counts and destination capacity"),
+    ("eq_", "two archetypes of one shape with symbolic identifiers and cell values"),
+    ("filt_", "symbolic identifier byte(s) with clear padding: every component set of the registry at once"),
+    ("view_", "symbolic cell values and identifiers; every row visited"),
+    ("entryq_", "symbolic cell values, identifiers and target row"),
+    ("indices_", "no symbolic input: type-level computation executed and compared with registry positions"),
+    ("par_", "symbolic cell values and two symbolic split indices (three pieces)"),
+    ("world_", "symbolic payload of the inserted entity and a symbolic stale generation"),
+    ("rsrc_", "symbolic resource values (u8, u16, u32) and written values"),
+    ("batch_", "symbolic column lengths in 0..=3 (equal twin / some pair differs)"),
+    ("dup", "no symbolic input: registry with one duplicated component, constructor must panic"),
+    ("nodup_", "no symbolic input: duplicate-free registry, constructors must return"),
+    ("claim_merge_", "two symbolic claim lists of length 4"),
+    ("claim_views_", "no symbolic input: claims of view lists compared with the kind at each registry position"),
+    ("stagepair_", "no symbolic input: Stages type resolved by rustc for two adjacent tasks"),
+    ("sched_", "symbolic resource values and one symbolic bit per rayon::join (order of the two closures)"),
+    ("serrt_", "symbolic cell values and identifiers; concrete shape and encoding"),
+    ("serbad_", "symbolic cell values and identifiers; concrete damage (position / substituted token) from the instance name"),
+    ("identde_", "symbolic identifier bytes"),
+    ("allocde_", "every identifier of the input symbolic (index < 8, any generation): free list and both identifier columns; concrete declared length"),
+    ("bitwalk_", "symbolic identifier bytes with clear padding; concrete registry length"),
+]
+
+
 def describe_inputs(harness):
+    for prefix, text in INPUTS:
+        if harness.startswith(prefix):
+            return text
     return ""
 
 
